@@ -16,7 +16,7 @@ RULE = (
     "with 1-4 recording fields (empty flag, length declaration, allowed characters varied) and 0-3 recording checks "
     "(accepting / vetoing marked rows / failing at the end) x tables of 0-6 rows (empty, blank-only, disallowed-character, "
     "wrong-length, hook-rejected cells, wrong item counts, vetoed rows) x header 0-2 x validation limit x the three error "
-    "modes x reader and writer x delimited and fixed x 1-3 consecutive runs on one CID. The recorded call log must equal "
+    "modes x reader and writer x delimited and fixed x 1-3 consecutive runs on one CID (a Reader that was read and closed may be asked for its rows once more: a run of its own). The recorded call log must equal "
     "the sequence M-protocol predicts (reset at least once before the first row of each data set and never later; value "
     "hooks only for guarded-clean cells in column order up to the first rejected cell; check_row in declaration order "
     "until the first veto; check_at_end once for every check in declaration order, whether or not an earlier one failed; cleanup of every check; no "
@@ -30,6 +30,7 @@ ASSUMPTIONS = ["'reset once before the first row' is judged as 'at least once be
 
 LOG = []
 POST_DEFINED = [0]  # number of class pairs defined after the Cid object that uses them (a handful per process)
+KEEP = {}  # the Reader (and its source) of the most recent "reader" run
 ERRORS_SEEN = []  # [expected row number, error class, row number in the error's location, text] of yielded errors
 _registered = {}
 
@@ -272,8 +273,15 @@ def run_reader(cid, model, table, mode, limit, api):
                     # handed to the caller tells where
                     location = getattr(item, "location", None)
                     ERRORS_SEEN.append([number + model.header, type(item).__name__, None if location is None else location.line + 1, str(item)])
-        elif api == "reader":
-            reader = cutplace.Reader(cid, source, on_error=mode, validate_until=limit)
+        elif api in ("reader", "reader-again"):
+            if api == "reader-again" and KEEP.get("reader") is not None:
+                # the Reader of the run before (read completely or aborted, and closed) is asked for its rows once
+                # more: a run of its own, driven by the same protocol
+                reader, source = KEEP["reader"], KEEP["source"]
+                source.seek(0)
+            else:
+                reader = cutplace.Reader(cid, source, on_error=mode, validate_until=limit)
+            KEEP["reader"], KEEP["source"] = reader, source
             try:
                 try:
                     with reader:
@@ -351,6 +359,7 @@ def check_case(ctx, model, table, plan):
     del LOG[:]
     names = [c["desc"] for c in model.rec_checks]
     nontrivial = model.header > 0 or any(c["behaviour"] != "accept" for c in model.rec_checks)
+    KEEP.clear()
     for index, (api, mode, limit) in enumerate(plan):
         del LOG[:]
         del ERRORS_SEEN[:]
@@ -464,6 +473,8 @@ def gen_plan(rng, model, table):
         if api == "writer":
             mode, limit = None, None
         plan.append((api, mode, limit))
+        if api == "reader" and rng.random() < 0.4:
+            plan.append(("reader-again", mode, limit))
     return plan
 
 
